@@ -100,6 +100,26 @@ def arith_contract(op, t, part='rel'):
     return Contract(requires=req, ensures=ens, assigns=[], note=note)
 
 
+def unary_contract(op, t):
+    """-f and +f denote exactly -(n/d) and n/d: cross-multiplied in a wide vector; the result keeps a non-zero denominator"""
+    P = CT.promote(t)
+    Dt = t if op == 'minus' else P          # operator- leaves the denominator unpromoted, operator+ promotes both
+    w = 80
+    n = '((%s)(%s)(*a0).f0)' % (W(w), t.sctype)
+    d = '((%s)(%s)(*a0).f1)' % (W(w), t.sctype)
+    rn = '((%s)(%s)%s)' % (W(w), P.sctype, retfield(0, P.bits))
+    rd = '((%s)(%s)%s)' % (W(w), Dt.sctype, retfield(P.bits, Dt.bits))
+    req = ['%s != 0' % d]
+    if op == 'minus' and P.bits == t.bits:
+        req.append('%s != %s' % (n, wconst(P.min, w)))       # -n must fit ('operands small enough')
+    sign = '-' if op == 'minus' else ''
+    # the rational value: either component-wise (sign on the numerator or on the denominator) or, for any other representation,
+    # cross-multiplied (two different multipliers commute only for SAT at 8 bits, so the cheap disjuncts come first)
+    same = ('(%s == %s%s && %s == %s)' % (rn, sign, n, rd, d)) + ((' || (%s == %s && %s == -%s)' % (rn, n, rd, d)) if op == 'minus' else '')
+    return Contract(requires=req, ensures=['%s || (%s * %s == %s%s * %s)' % (same, rn, d, sign, n, rd), '%s != 0' % rd], assigns=[],
+                    note='unary %s on a fraction: exact rational value, non-zero denominator' % ('-' if op == 'minus' else '+'))
+
+
 def cmp_contract(op, t):
     P = CT.promote(t)
     nl, dl = uv('(*a0).f0', t), uv('(*a0).f1', t)
@@ -201,6 +221,13 @@ def plan(tier):
                             r'^auto cnl::operator\%s<%s, %s, %s, %s>\(' % (s, dem(c), dem(c), dem(c), dem(c)),
                             arith_contract(op, t, 'den'), shim=sname, shim_types=[c, c, c, c], oracle=orc(op, P), prop=PROP, skip_this=False,
                             solvers=('cadical', 'kissat'), timeout=900))
+        for op, s_ in (('minus', '-'), ('plus', '+')):
+            sname = 'vp_%s_%s' % (op, c)
+            src.append('extern "C" bool %s(%s a, %s b) { auto r = %s%s{a, b}; return r.denominator != 0 && static_cast<__int128>(r.numerator) * b == %sstatic_cast<__int128>(a) * r.denominator; }\n'
+                       % (sname, cxx(c), cxx(c), s_, F, s_))
+            jobs.append(Job('%s.%s.%s' % (PROP, op, c), kname, r'^auto cnl::operator\%s<%s, %s>\(cnl::fraction<' % (s_, dem(c), dem(c)),
+                            unary_contract(op, t), shim=sname, shim_types=[c, c], prop=PROP, skip_this=False, timeout=300,
+                            oracle=(lambda op, P, t: lambda a, b: None if (b == 0 or (op == 'minus' and P.bits == t.bits and a == P.min)) else ('value', 1))(op, P, t)))
         for op, s in cs.items():
             if heavy and op not in ('lt', 'eq') and not thorough:
                 continue
